@@ -162,8 +162,10 @@ class Config:
     # squares of input values as an uninterpreted function: sound over-approximation that keeps "sum of squares"
     # queries linear; switched off where the algebra of squares matters (variance identity)
     sq_uninterpreted = True
+    div_uninterpreted = True
 
 
+_DIV = z3.Function("div", z3.RealSort(), z3.RealSort(), z3.RealSort())
 _SQR = z3.Function("sq", z3.RealSort(), z3.RealSort())
 _SQI = z3.Function("sqi", z3.IntSort(), z3.IntSort())
 
@@ -317,7 +319,11 @@ class SF:
             return SF(b_or(self.nan, o.nan), self.v / o.v)
         zero = o.v == 0
         nan = b_or(self.nan, o.nan, b_and(zero, self.v == 0))
-        return SF(nan, z3.If(zero, z3.RealVal(0), self.v / o.v), b_and(zero, self.v > 0), b_and(zero, self.v < 0))
+        # quotient by a symbolic divisor as an uninterpreted function (sound over-approximation: equal operands still give
+        # equal quotients), so that mean-type queries stay linear; the algebra of division is only needed for EMA / variance,
+        # which use the obligation mode above or switch this off
+        q = _DIV(self.v, o.v) if Config.div_uninterpreted else self.v / o.v
+        return SF(nan, z3.If(zero, z3.RealVal(0), q), b_and(zero, self.v > 0), b_and(zero, self.v < 0))
 
     def __rtruediv__(self, o): return SF.of(o).__truediv__(self)
 
